@@ -5,6 +5,7 @@ package main
 // static reachability over resolved callees, constant lookup in dependency packages.
 
 import (
+	"fmt"
 	"go/constant"
 	"go/token"
 	"go/types"
@@ -402,4 +403,32 @@ func deferClobbersError(p *Prog, fn *ssa.Function) []string {
 		}
 	}
 	return out
+}
+
+// checkScannerBuffers: no line reader of the repository lowers bufio.Scanner's token limit below its
+// default (64 KiB): a smaller limit refuses lines the documented formats legitimately produce (a cache line
+// with a long vendor name, a target line with extra fields). Raising it is fine.
+func checkScannerBuffers(p *Prog, r *Report, rule string) {
+	var bad []string
+	n := 0
+	for _, fn := range p.SrcFuncs() {
+		for _, b := range fn.Blocks {
+			for _, in := range b.Instrs {
+				c, ok := in.(*ssa.Call)
+				if !ok {
+					continue
+				}
+				switch calleeFull(&c.Call) {
+				case "bufio.NewScanner":
+					n++
+				case "(*bufio.Scanner).Buffer":
+					if k, isK := constInt(c.Call.Args[2]); !isK || k < 64*1024 {
+						bad = append(bad, fmt.Sprintf("%s limits lines to %s bytes at %s", FuncName(fn), (*Seg)(nil).term(c.Call.Args[2], 0), p.Pos(c.Pos())))
+					}
+				}
+			}
+		}
+	}
+	sort.Strings(bad)
+	r.Check(len(bad) == 0 && n >= 4, rule, "line-readers/token-limit", "-", "no bufio.Scanner of the repository lowers the line limit below the 64 KiB default", strings.Join(bad, "; "))
 }
